@@ -63,7 +63,7 @@ class CriticalPathCalculator:
         self.__tasks[task.id] = task
 
         p_ids = []
-        for p in task.predecessors:
+        for p in self.__predecessor_leaves(task):
             p_ids.append(p.id)
             self.__insert_task(p)
 
@@ -71,6 +71,17 @@ class CriticalPathCalculator:
         spent = task.spent if task.spent is not None else 0
 
         self.__add_work(task.id, max(estimate - spent, 0), p_ids)
+
+    def __predecessor_leaves(self, task: Task) -> List[Task]:
+        """Tasks the leaf task waits for: predecessors of the task and of its parents, parent tasks as leaves"""
+        res = []
+        for t in [task] + [p for p in task.all_parents]:
+            for p in t.predecessors:
+                if len(p.children) == 0:
+                    res.append(p)
+                else:
+                    res += [ch for ch in p.all_children if len(ch.children) == 0]
+        return res
 
     def __new_node(self) -> _PNode:
         res = _PNode()
